@@ -62,6 +62,10 @@ PATTERNS = [
     ("{daughters} <- {mother}", "<{daughters} <- {mother}>"),
     ("{mother}:{daughters}|{mother}", "{{{mother}:{daughters}}}"),
     ("TOP {mother} {daughters}", "SUB {mother} {daughters}"),
+    # blanks that belong to the pattern: just inside brackets, at either end, a line break
+    ("[ {mother} -> {daughters} ]CC", "( {mother} -> {daughters} )"),
+    ("  {mother} => {daughters}  ", "{{ {mother} => {daughters} }}"),
+    ("{mother} ->\n    {daughters}", "< {mother} -> {daughters} >"),
 ]
 
 
